@@ -66,7 +66,8 @@ func (m *Mutex) Unlock() {
 		m.mu.Unlock()
 		return
 	}
-	e.point("Mutex.Unlock")
+	// a release is a left mover (it never blocks and only enables others): no
+	// scheduling point is needed before it, the next point of this thread follows it
 	if !m.held {
 		panic("sync: unlock of unlocked mutex")
 	}
@@ -110,7 +111,8 @@ func (m *RWMutex) Unlock() {
 		m.mu.Unlock()
 		return
 	}
-	e.point("RWMutex.Unlock")
+	// a release is a left mover (it never blocks and only enables others): no
+	// scheduling point is needed before it, the next point of this thread follows it
 	if !m.writer {
 		panic("sync: Unlock of unlocked RWMutex")
 	}
@@ -144,7 +146,8 @@ func (m *RWMutex) RUnlock() {
 		m.mu.RUnlock()
 		return
 	}
-	e.point("RWMutex.RUnlock")
+	// a release is a left mover (it never blocks and only enables others): no
+	// scheduling point is needed before it, the next point of this thread follows it
 	if m.readers <= 0 {
 		panic("sync: RUnlock of unlocked RWMutex")
 	}
